@@ -7,7 +7,7 @@ opaque value and are assumed not to mutate their arguments (A-LIB).
 """
 import z3
 
-from .cx import (Vec, Opaque, Obj, NDArr, Store, ExcVal, Closure, LibFn, ModRef, ClassRef, Unsupported, _Raise,
+from .cx import (DArr, Vec, Opaque, Obj, NDArr, Store, ExcVal, Closure, LibFn, ModRef, ClassRef, Unsupported, _Raise,
                  is_sym, R, num_pair)
 
 TABLE = {}
@@ -567,3 +567,45 @@ def pred_props(uid, ver=0):
           z3.Implies(z3.And(z3.Not(P['any_inf']), z3.Not(P['any_nan'])), P['all_finite']),
           z3.Implies(z3.And(z3.Not(P['any_nonpos']), z3.Not(P['any_nan'])), P['all_pos'])]
     return P, ax
+
+
+PW = {'sqrt': z3.Function('SQRT', z3.RealSort(), z3.RealSort()), 'abs': z3.Function('ABS', z3.RealSort(), z3.RealSort()),
+      'conj': z3.Function('CONJ', z3.RealSort(), z3.RealSort())}
+
+
+@reg('np.sqrt', 'np.abs', 'np.conj', 'ndarray.conj', 'dataarray.conj', 'builtins.abs', 'np.absolute')
+def _pw(it, f, args, kw, node):
+    """element-wise sqrt/abs/conj with a point-wise symbolic value (uninterpreted, congruence only)"""
+    used('np.sqrt / np.abs / np.conj: pure element-wise functions (treated as uninterpreted functions of the element)')
+    v = f.bound if f.bound is not None else args[0]
+    fn = PW[[k for k in PW if k in f.name][0]] if any(k in f.name for k in PW) else PW['abs']
+    if isinstance(v, NDArr):
+        val = fn(v.store.val) if v.store.val is not None and is_sym(R(v.store.val)) else None
+        cls_ = DArr if isinstance(v, DArr) else NDArr
+        return cls_(Store(f'fresh@{line(node)}', val))
+    if isinstance(v, (int, float)) and not isinstance(v, bool):
+        import math
+        return {'sqrt': math.sqrt, 'abs': abs, 'conj': lambda x: x}[[k for k in PW if k in f.name][0] if any(k in f.name for k in PW) else 'abs'](v)
+    if is_sym(v):
+        v2 = z3.ToReal(v) if z3.is_int(v) else v
+        return fn(v2)
+    return Opaque(f.name)
+
+
+@reg('dataarray.copy')
+def _dacopy(it, f, args, kw, node):
+    used('xarray.DataArray.copy(data=X): the new DataArray holds X itself as its data (no copy of X); without data= a deep copy')
+    v = f.bound
+    if 'data' in kw:
+        d = kw['data']
+        if isinstance(d, NDArr):
+            return DArr(d.store, view=d.view, dtype=d.dtype, attrs=dict(v.attrs))
+        return DArr(Store(f'fresh@{line(node)}', R(d) if isinstance(d, (int, float)) else None), attrs=dict(v.attrs))
+    return DArr(Store(f'fresh@{line(node)}', v.store.val), attrs=dict(v.attrs))
+
+
+@reg('dataarray.sel', 'dataarray.isel')
+def _dasel(it, f, args, kw, node):
+    used('xarray.DataArray.sel(**labels) with label lists: returns the selected sub-cube as a new array (assumed contract)')
+    it.ctx.event('sel', source=f.bound, labels=dict(kw))
+    return DArr(Store(('sel', f.bound.store.uid, tuple(sorted((k, tuple(v) if isinstance(v, (list, tuple)) else v) for k, v in kw.items()))), None))
